@@ -14,6 +14,7 @@ CHECK = {
         "technique": "property-based testing (rapid) against a reference binding predicate; plan-first with structural, byte-level and key mutations; scripted in-process RPC as header source",
         "runs": [
             {"name": "c02", "run": "^TestC02_(HistoryContent|GenuineVectors)$", "checks": {"quick": 9000, "thorough": 25000}, "shards": {"quick": 1, "thorough": 16}},
+            {"name": "c02getters", "run": "^TestC02_Getters$", "checks": {"quick": 70, "thorough": 100}, "shards": {"quick": 4, "thorough": 16}, "rounds": {"quick": 2, "thorough": 5}},
             {"name": "c02gate", "run": "^TestC02_NetworkGate$", "checks": {"quick": 2500, "thorough": 8000}, "shards": {"quick": 1, "thorough": 16}},
         ],
         "rule": "rapid draws a key selector (header by hash / by number, body, receipts), a key block and a second block, each a genuine "
@@ -40,7 +41,7 @@ CHECK = {
             "empty content keys are property C01's subject and not generated",
             "the three Bellatrix entries of types/history/testdata/header_with_proof.yaml are moved into today's field order by the loader",
         ],
-        "required_classes": {"quick": ["honest-bound:header:genuine", "honest-bound:body:genuine", "honest-bound:receipts:genuine",
+        "required_classes": {"quick": ["getter:refused-then-same", "getter:refused-then-genuine", "getter:body:returned", "honest-bound:header:genuine", "honest-bound:body:genuine", "honest-bound:receipts:genuine",
                                        "honest-bound:body:synthetic", "honest-bound:receipts:synthetic",
                                        "ref:tx-root", "ref:uncle-hash", "ref:withdrawals-root", "ref:withdrawals-missing", "ref:withdrawals-unexpected",
                                        "ref:receipts-root", "ref:key-mismatch", "ref:proof:leaf-branch-mismatch",
